@@ -15,6 +15,8 @@ import (
 
 	"github.com/bluenviron/gomavlib/v3"
 	"github.com/bluenviron/gomavlib/v3/pkg/dialect"
+	"github.com/bluenviron/gomavlib/v3/pkg/frame"
+	"github.com/bluenviron/gomavlib/v3/pkg/message"
 	"github.com/bluenviron/gomavlib/v3/pkg/timednetconn"
 
 	"verifharness/hx"
@@ -32,18 +34,39 @@ type recConn struct {
 	mu    sync.Mutex
 	calls []string
 	bad   string
+	// scripted result of the next Read / Write of the wrapped connection (n < 0: the plain result)
+	nextN   int
+	nextErr error
 }
+
+type timeoutErr struct{}
+
+func (timeoutErr) Error() string   { return "scripted i/o timeout" }
+func (timeoutErr) Timeout() bool   { return true }
+func (timeoutErr) Temporary() bool { return true }
 
 func (r *recConn) rec(s string) {
 	r.mu.Lock()
 	r.calls = append(r.calls, s)
 	r.mu.Unlock()
 }
-func (r *recConn) Read(b []byte) (int, error)  { r.rec("R"); return 1, nil }
-func (r *recConn) Write(b []byte) (int, error) { r.rec("W"); return len(b), nil }
-func (r *recConn) Close() error                { return nil }
-func (r *recConn) LocalAddr() net.Addr         { return nil }
-func (r *recConn) RemoteAddr() net.Addr        { return nil }
+func (r *recConn) Read(b []byte) (int, error) {
+	r.rec("R")
+	if r.nextN >= 0 {
+		return r.nextN, r.nextErr
+	}
+	return 1, nil
+}
+func (r *recConn) Write(b []byte) (int, error) {
+	r.rec("W")
+	if r.nextN >= 0 {
+		return r.nextN, r.nextErr
+	}
+	return len(b), nil
+}
+func (r *recConn) Close() error         { return nil }
+func (r *recConn) LocalAddr() net.Addr  { return nil }
+func (r *recConn) RemoteAddr() net.Addr { return nil }
 func (r *recConn) SetDeadline(t time.Time) error {
 	r.rec("SD")
 	return nil
@@ -81,10 +104,30 @@ func genC14(o *hx.Out, tier string) {
 
 	// (1) deadline wrapper: every Read / Write arms a fresh deadline first
 	for i := 0; i < 40; i++ {
-		rc := &recConn{}
+		rc := &recConn{nextN: -1}
 		c := timednetconn.New(500*time.Millisecond, 300*time.Millisecond, rc)
 		var ops []string
+		// the wrapper hands the result of the wrapped call back unchanged and keeps no memory of it:
+		// after a failed, timed-out or partial Read / Write the next call is made like the first
+		check := func(n int, err error) {
+			if rc.nextN >= 0 && (n != rc.nextN || err != rc.nextErr) {
+				rc.bad = fmt.Sprintf("wrapped call returned (%d, %v), wrapper returned (%d, %v)", rc.nextN, rc.nextErr, n, err)
+			}
+		}
 		for j := 0; j < 1+r.Intn(12); j++ {
+			rc.nextN, rc.nextErr = -1, nil
+			if i >= 20 {
+				switch r.Intn(5) {
+				case 0:
+					rc.nextN, rc.nextErr = 0, timeoutErr{}
+				case 1:
+					rc.nextN, rc.nextErr = 1, timeoutErr{} // cut by the deadline after part of the buffer
+				case 2:
+					rc.nextN, rc.nextErr = 0, causeErr{7}
+				case 3:
+					rc.nextN, rc.nextErr = 2, causeErr{8}
+				}
+			}
 			if i%10 == 3 {
 				// time passes between two calls (the application was busy): the deadline is counted
 				// from the call, not from the previous reception
@@ -92,10 +135,10 @@ func genC14(o *hx.Out, tier string) {
 			}
 			if r.Intn(2) == 0 {
 				ops = append(ops, "R")
-				c.Read(make([]byte, 4)) //nolint:errcheck
+				check(c.Read(make([]byte, 4)))
 			} else {
 				ops = append(ops, "W")
-				c.Write([]byte{1}) //nolint:errcheck
+				check(c.Write([]byte{1, 2, 3, 4}))
 			}
 		}
 		impl := strings.Join(rc.calls, " ")
@@ -603,5 +646,109 @@ func genC14(o *hx.Out, tier string) {
 			scn.CloseWithin(node, 10*time.Second)
 			o.Add(fmt.Sprintf("idle expiry after bursts udp=%v", udp), impl, "idle", strconv.Itoa(dms), strings.Join(arr, " "))
 		}
+	}
+
+	// (7) a healthy link stays open through input that is refused: a TCP client channel receives valid
+	// frames, junk, frames with a wrong checksum and v1 frames of a dialect message whose checksum is
+	// right but whose payload has the wrong length; each is a parse error, the channel is not closed
+	// and the endpoint does not reconnect (the server sees one connection)
+	{
+		ln, err := net.Listen("tcp4", "127.0.0.1:0")
+		verdict := "ok"
+		if err != nil {
+			verdict = "LISTEN-FAILED"
+		} else {
+			var conns int32
+			accepted := make(chan net.Conn, 8)
+			go func() {
+				for {
+					c, err := ln.Accept()
+					if err != nil {
+						return
+					}
+					atomic.AddInt32(&conns, 1)
+					accepted <- c
+				}
+			}()
+			node, err := gomavlib.NewNode(gomavlib.NodeConf{Endpoints: []gomavlib.EndpointConf{gomavlib.EndpointTCPClient{Address: ln.Addr().String()}},
+				Dialect: d, OutVersion: gomavlib.V2, OutSystemID: 10, HeartbeatDisable: true})
+			if err != nil {
+				verdict = "NODE-FAILED"
+			} else {
+				col := scn.NewCollector(node, 0, false)
+				var peer net.Conn
+				select {
+				case peer = <-accepted:
+				case <-time.After(5 * time.Second):
+					verdict = "NO-CONNECTION"
+				}
+				if peer != nil {
+					mrw := drw.GetMessage(0)
+					full := len(mrw.Write(hx.RandMessage(r, d.Messages[0], 1), true).Payload)
+					odd := func(v2 bool, n int) []byte {
+						pl := make([]byte, n)
+						for i := range pl {
+							pl[i] = byte(i + 1)
+						}
+						raw := &message.MessageRaw{ID: 0, Payload: pl}
+						if v2 {
+							f := &frame.V2Frame{SystemID: 3, ComponentID: 4, Message: raw}
+							f.Checksum = f.GenerateChecksum(mrw.CRCExtra())
+							return frameBytes(drw, f)
+						}
+						f := &frame.V1Frame{SystemID: 3, ComponentID: 4, Message: raw}
+						f.Checksum = f.GenerateChecksum(mrw.CRCExtra())
+						return frameBytes(drw, f)
+					}
+					bad := append([]byte(nil), frameB...)
+					bad[len(bad)-1] ^= 0x55
+					script := [][]byte{frameB, odd(false, full-1), frameB, odd(false, full+1), frameB, odd(false, 1), frameB,
+						{0x01, 0x02, 0x03}, frameB, bad, frameB}
+					nvalid := 6
+					for _, b := range script {
+						peer.Write(b) //nolint:errcheck
+						time.Sleep(20 * time.Millisecond)
+					}
+					ok := col.Wait(func() bool {
+						for _, ch := range col.Channels() {
+							if countFrames(col.Events(ch)) >= nvalid {
+								return true
+							}
+						}
+						return false
+					})
+					time.Sleep(300 * time.Millisecond)
+					nf, np, nc := 0, 0, 0
+					cause := ""
+					for _, ch := range col.Channels() {
+						for _, e := range col.Events(ch) {
+							switch e := e.(type) {
+							case *gomavlib.EventFrame:
+								nf++
+							case *gomavlib.EventParseError:
+								np++
+							case *gomavlib.EventChannelClose:
+								nc++
+								cause = fmt.Sprint(e.Error)
+							}
+						}
+					}
+					switch {
+					case nc != 0:
+						verdict = fmt.Sprintf("HEALTHY-CHANNEL-CLOSED after %d frames (%s)", nf, cause)
+					case !ok || nf != nvalid:
+						verdict = fmt.Sprintf("FRAMES-LOST %d of %d", nf, nvalid)
+					case np < 5:
+						verdict = fmt.Sprintf("REFUSED-INPUT-NOT-REPORTED %d parse errors", np)
+					case atomic.LoadInt32(&conns) != 1 || len(col.Channels()) != 1:
+						verdict = fmt.Sprintf("RECONNECTED-WITHOUT-A-FAULT %d connections", atomic.LoadInt32(&conns))
+					}
+					peer.Close()
+				}
+				scn.CloseWithin(node, 10*time.Second)
+			}
+			ln.Close()
+		}
+		o.Add("refused input on a healthy tcp client channel", verdict, "expect", "ok", "healthy-link-refused-input")
 	}
 }
